@@ -106,7 +106,7 @@ def _legacy_deser(key, value, flags):
 def preload(env, cfg, state):
     srv = env.server
     p = cfg.get("key_prefix", b"")
-    p = p.encode("ascii") if isinstance(p, str) else p
+    p = p.encode("utf-8") if isinstance(p, str) else p      # (a str prefix is ASCII in every configuration the library accepts)
     if state in ("hit", "numeric", "none"):
         # "none": the item exists and its value is falsy - b"" without a serializer, None (as the serializer stores it) with one
         val = b"10" if state == "numeric" else b"value" if state == "hit" else b""
@@ -121,17 +121,24 @@ def preload(env, cfg, state):
         srv.store[p + b"j"] = Item(b"other", 0, 0, srv._next_cas(), srv.clock.now)
 
 
+class Refused(Exception):
+    """the stack's constructor raised (args[0]: what it raised)"""
+
+
 def run_stack(stack, cfg, state, r):
     if cfg.get("serde") is not None and cfg.get("legacy"):
         cfg = {k: v for k, v in cfg.items() if k != "legacy"}
     env = _env(cfg)
     kw = build_kwargs(cfg, env)
-    if stack in ("client", "retry1", "retry3"):
-        c = env.client("client", **kw)
-        if stack != "client":
-            c = RetryingClient(c, attempts=1 if stack == "retry1" else 3)
-    else:
-        c = env.client(stack, **kw)
+    try:
+        if stack in ("client", "retry1", "retry3"):
+            c = env.client("client", **kw)
+            if stack != "client":
+                c = RetryingClient(c, attempts=1 if stack == "retry1" else 3)
+        else:
+            c = env.client(stack, **kw)
+    except Exception as e:  # noqa: BLE001
+        raise Refused(e)
     preload(env, cfg, state)
     if "pos_default" in r:
         rr = dict(r)
@@ -317,8 +324,19 @@ def check(case):
     cfg, state, r = case["cfg"], case["state"], case["op"]
     try:
         base, blog, berr, bsock, _ = run_stack("client", cfg, state, r)
-    except Exception as e:  # noqa: BLE001
-        raise Violation(["reference-construction", type(e).__name__], "plain Client could not be constructed with %r: %r" % (cfg, e))
+    except Refused as ref:
+        # a configuration the plain Client refuses (a str key prefix that is not ASCII): every stack refuses it alike
+        e = ref.args[0]
+        for stack in _stacks_for(cfg):
+            try:
+                run_stack(stack, cfg, state, r)
+            except Refused as ref2:
+                e2 = ref2.args[0]
+                if type(e2) is not type(e):
+                    raise Violation(["construction-differs", stack, type(e2).__name__], "Client refuses the configuration %r with %r, %s with %r" % (cfg, e, stack, e2))
+                continue
+            raise Violation(["construction-differs", stack, "accepted"], "Client refuses the configuration %r with %r, %s accepts it" % (cfg, e, stack))
+        return False, ["configuration-refused-by-all"]
     stacks = _stacks_for(cfg)
     if base[0] == "ok":
         stacks.append("retry3")
@@ -328,6 +346,8 @@ def check(case):
         desc = "%s vs Client: call %r, state %s, cfg %r" % (stack, r, state, cfg)
         try:
             res, log, err, sock, env = run_stack(stack, cfg, state, r)
+        except Refused as ref:
+            raise Violation(["construction", stack, type(ref.args[0]).__name__], "constructing the stack raised %r (the plain Client accepts the configuration): %s" % (ref.args[0], desc))
         except Exception as e:  # noqa: BLE001
             raise Violation(["construction", stack, type(e).__name__], "constructing the stack raised %r: %s" % (e, desc))
         if not same_result(res, base):
@@ -453,7 +473,15 @@ CFGS = [
 ]
 
 
+# configurations the plain Client refuses at construction (a str key prefix must be ASCII, whatever allow_unicode_keys says): every
+# stack refuses them alike
+REFUSED_CFGS = [{"key_prefix": "\u043a\u043b\u044e\u0447:", "allow_unicode_keys": True}, {"key_prefix": "caf\u00e9/"}, {"key_prefix": "caf\u00e9/", "allow_unicode_keys": True, "encoding": "utf-8"}]
+
+
 def grid_cases(tier, seed):
+    for cfg in REFUSED_CFGS:
+        for r in CALLS[:6]:
+            yield {"cfg": cfg, "state": "hit", "op": r}
     for cfg in CFGS:
         for state in ("hit", "numeric", "miss", "none"):
             for r in CALLS:
